@@ -8,7 +8,7 @@ from ofxtools.Types import OFXSpecError, OFXTypeWarning
 
 def text_sampler(rng):
     pool = ["", "Y", "N", "y", "1", "12", "-7", "+3", "007", "1_0", " 1", "abc", "AT&T", "&lt;", "a&amp;b", "&nbsp;", "x" * 40,
-            "é€", "<", "&", "1.5", "1,5", "TYPE1", "NONE", "١٢", "1e3", "--1", "-", "+"]
+            "é€", "<", "&", "&amp;lt;", "&amp;amp;", "x&amp;nbsp;y", "&amp;quot;", "&lt;&amp;gt;", "1.5", "1,5", "TYPE1", "NONE", "١٢", "1e3", "--1", "-", "+"]
     if rng.random() < 0.7:
         return rng.choice(pool)
     alpha = "aZ09 &<>;\"'é€lt_+-."
